@@ -367,7 +367,7 @@ def b10(ctx):
                  ctx.loc(ws[0]) if ws else b.loc())
 
 
-@rule("C14-B11", "C14", 10, "the views of both byte handles designate the buffer itself: buffer() / buffer_mut() are the arena bytes [ptr_offset, ptr_offset + capacity()), "
+@rule("C14-B11", "C14", 8, "the views of both byte handles designate the buffer itself: buffer() / buffer_mut() are the arena bytes [ptr_offset, ptr_offset + capacity()), "
       "deref / deref_mut the first len of them, as_ptr / as_mut_ptr the arena pointer at ptr_offset - every put_* writes through buffer_mut() / as_mut_ptr() and every "
       "get_* reads through buffer(), so a view that starts at the owned extent (memory_offset: the node header of a recycled segment, the alignment padding) moves "
       "every access in front of the buffer", also=("C01", "C08"))
